@@ -13,14 +13,14 @@ r=$("$T"/seedrun.sh "$D/patch.diff" $P "$@" 2>&1 | grep -v WARNING)
 echo "$r"
 cp "$D/patch.diff" "$out/patch.diff"; cp "$D/demo.rs" "$out/demo.rs"; cp "$D/notes.md" "$out/notes.md" 2>/dev/null
 caught=$(echo "$r" | grep -E "^\[C[0-9]+\] rc=1" | sed 's/\] .*//; s/\[//' | tr '\n' ' ')
-SEED_OUT="$r" python3 - "$out" "$P" "$caught" "$@" <<PY
+SEED_OUT="$r" SEED_AT="verif $(git -C /verif rev-parse --short HEAD) / repo $(git -C /repo rev-parse --short HEAD)" python3 - "$out" "$P" "$caught" "$@" <<PY
 import json,sys,os
 out,prop,caught=sys.argv[1],sys.argv[2],sys.argv[3].split()
 notes=open(out+'/notes.md').read() if __import__('os').path.exists(out+'/notes.md') else ''
 meta={"breaks_property":prop,"source":"independent sub-agent given only the property text and a scratch worktree","needs_to_manifest":notes[:1200],
  "confirmed":"tools/seedverify.sh: applies at /repo HEAD, compiles, existing test suite results identical, demo fails with the change and passes without",
  "checks_run":"tools/seedrun.sh (quick tier, default VERIF_SEED): "+" ".join([prop]+sys.argv[4:]),
- "caught_by":caught,"check_output":os.environ.get("SEED_OUT","")}
+ "caught_by":caught,"check_output":os.environ.get("SEED_OUT",""),"evaluated_at":os.environ.get("SEED_AT","")}
 json.dump(meta,open(out+'/meta.json','w'),indent=1)
 PY
 echo ">>> $name caught_by: ${caught:-NONE}"
